@@ -121,6 +121,12 @@ def run(ctx):
                     f.local_ty(mir.op_local(t["args"][0]) or 0).startswith("&mut"):
                 writers.add((f.name, callee(t)))
     ctx.inst("C14-pairing", "writers", sorted(writers))
+    # the census above is complete only if no embedding can reach the set: compiler-resolved field visibility
+    from . import privacy
+    privacy.require_restricted(ctx, "C14-pairing", fb, "interpreter::interpreter::Interpreter",
+                               ["imported_library", "libraries", "lib_loader"],
+                               "code outside the interpreter module could edit the in-progress set / instance cache, so the "
+                               "who-may-write census of this rule would be incomplete")
 
     # ------------------------------------------------------------------ C14-cycle-guard
     ctx.rule("C14-cycle-guard", "loading terminates: every cycle through the loader is cut by the insert==true edge; "
